@@ -30,6 +30,17 @@ CHECKS = {
         design='DESIGN.md §3 C16'),
 }
 
+CHECKS['C14'] = dict(
+    text='Lean theorems: for every syntax note with at least two positions in 01..99 and every segment (hence every length and presence '
+         'pattern), the model of is_syntax_valid reports the note violated iff the X12 definition (paired / required / exclusion / '
+         'conditional / list conditional, written with quantifiers over positions) says so; routing theorems (E -> code 10, others -> 2, '
+         'one error per violated note at its first position, none for a satisfied note); note-text parser specification. Tied to /repo by '
+         'an exhaustive differential: every note class of every shipped map x all 2^n patterns x all lengths through the real '
+         'is_syntax_valid and through segment_if.is_valid with errh_list, plus a generic part over all five types and arities 2-4.',
+    note=COMMON_NOTE + ' Notes under <composite> elements are never evaluated by pyx12 and are outside the property.',
+    technique='Lean 4 proof (verdict iff X12 definition, all notes/lengths/patterns) + exhaustive differential over all shipped notes',
+    design='DESIGN.md §3 C14')
+
 PENDING_REASON = 'check under construction in this session (see DESIGN.md §3); not yet claimed'
 
 
